@@ -5,7 +5,8 @@ Import ListNotations.
 Open Scope Z_scope.
 
 Ltac proj :=
-  cbn [wl wi cur hst pref vst pend store task tfin ehs sel
+  cbn [wl wi cur hst pref vst pend store task tfin ehs sel th
+       thr nprep tstarted tsrc tprep set_th
        set_wl set_wi_raw set_cur_raw set_hst set_pref set_vst set_pend set_store set_task set_ehs set_sel
        ls sto loaded fst snd] in *.
 
@@ -15,18 +16,18 @@ Definition Inv (s : hs) : Prop := 0 <= wi s < len (wl s).
 (* ---------------------------------------------------------------------- *)
 (* Frame: what navigation leaves alone. *)
 Definition frame (s s' : hs) : Prop :=
-  wl s' = wl s /\ store s' = store s /\ task s' = task s /\ tfin s' = tfin s /\ ehs s' = ehs s.
+  wl s' = wl s /\ store s' = store s /\ task s' = task s /\ tfin s' = tfin s /\ ehs s' = ehs s /\ th s' = th s.
 
 Lemma frame_refl s : frame s s.
-Proof. unfold frame; auto. Qed.
+Proof. unfold frame; repeat split. Qed.
 
 Lemma frame_trans a b c : frame a b -> frame b c -> frame a c.
-Proof. unfold frame; intros (?&?&?&?&?) (?&?&?&?&?); repeat split; congruence. Qed.
+Proof. unfold frame; intros (?&?&?&?&?&?) (?&?&?&?&?&?); repeat split; congruence. Qed.
 
 Lemma set_cursor_frame s v : frame s (set_cursor s v).
 Proof.
   unfold set_cursor, cursor_changed.
-  destruct (_ =? cur s); unfold frame; proj; auto.
+  destruct (_ =? cur s); unfold frame; proj; repeat split; auto.
 Qed.
 
 Lemma set_cursor_wi s v : wi (set_cursor s v) = wi s.
@@ -59,7 +60,7 @@ Qed.
 
 Lemma text_changed_frame c s : frame s (text_changed c s).
 Proof.
-  unfold text_changed. destruct (val c); [destruct (vwt c)|]; unfold frame; proj; auto.
+  unfold text_changed. destruct (val c); [destruct (vwt c)|]; unfold frame; proj; repeat split; auto.
 Qed.
 
 Lemma text_changed_wi c s : wi (text_changed c s) = wi s.
@@ -76,7 +77,7 @@ Proof.
   unfold set_wi. destruct (wi s =? v); [apply frame_refl|].
   eapply frame_trans; [|apply text_changed_frame].
   eapply frame_trans; [|apply set_cursor_frame].
-  unfold frame; proj; auto.
+  unfold frame; proj; repeat split; auto.
 Qed.
 
 Lemma set_wi_wi c s v : wi (set_wi c s v) = v.
@@ -93,7 +94,7 @@ Qed.
 
 Lemma set_history_search_frame s : frame s (set_history_search s).
 Proof.
-  unfold set_history_search. destruct (ehs s); [destruct (hst s)|]; unfold frame; proj; auto.
+  unfold set_history_search. destruct (ehs s); [destruct (hst s)|]; unfold frame; proj; repeat split; auto.
 Qed.
 
 Lemma set_history_search_wi s : wi (set_history_search s) = wi s.
@@ -169,7 +170,7 @@ Proof.
 Qed.
 
 Lemma set_pref_frame s v : frame s (set_pref s v).
-Proof. unfold frame; proj; auto. Qed.
+Proof. unfold frame; proj; repeat split; auto. Qed.
 
 Lemma cursor_up_frame s n : frame s (cursor_up s n).
 Proof.
@@ -203,10 +204,10 @@ Proof.
 Qed.
 
 Lemma set_vst_frame s v : frame s (set_vst s v).
-Proof. unfold frame; proj; auto. Qed.
+Proof. unfold frame; proj; repeat split; auto. Qed.
 
 Lemma set_pend_frame s v : frame s (set_pend s v).
-Proof. unfold frame; proj; auto. Qed.
+Proof. unfold frame; proj; repeat split; auto. Qed.
 
 Lemma validate_frame c s sc : frame s (fst (validate c s sc)).
 Proof.
@@ -267,6 +268,19 @@ Qed.
 Lemma flush_text c s : text (flush c s) = text s.
 Proof. apply text_eq; [apply flush_frame | apply flush_wi]. Qed.
 
+Lemma flush_th c s : th (flush c s) = th s.
+Proof. destruct (flush_frame c s) as (_ & _ & _ & _ & _ & H). exact H. Qed.
+
+(* ThreadedHistory's consumer does nothing for the other histories *)
+Lemma consume_base s : thr (th s) = false -> consume s = s.
+Proof. intros H. unfold consume. rewrite H. reflexivity. Qed.
+
+Lemma consume_th s : th (consume s) = th s.
+Proof.
+  unfold consume. destruct (thr (th s)); [|reflexivity].
+  destruct (task s); [|reflexivity]. destruct (tfin s); reflexivity.
+Qed.
+
 (* ---------------------------------------------------------------------- *)
 (* Classification of operations *)
 Definition is_nav (o : op) : Prop :=
@@ -290,7 +304,7 @@ Proof.
   - apply history_backward_frame.
   - apply history_forward_frame.
   - destruct (i <? - len (wl s)); cbn [fst snd ok].
-    + unfold frame; proj; auto.
+    + unfold frame; proj; repeat split; auto.
     + apply go_to_history_frame.
   - apply auto_up_frame.
   - apply auto_down_frame.
@@ -300,25 +314,95 @@ Proof.
   - apply set_cursor_frame.
   - apply validate_frame.
   - apply jump_frame.
-  - unfold frame; proj; auto.
+  - unfold frame; proj; repeat split; auto.
 Qed.
 
-Lemma step_state_eq c s o : step_state c s o = flush c (snd (fst (step_core c s o))).
+Lemma step_state_full c s o :
+  step_state c s o = flush c (consume (snd (fst (step_core c s o)))).
 Proof.
   unfold step_state, step. destruct (step_core c s o) as [[st s'] r]. reflexivity.
 Qed.
 
-Lemma nav_step_frame c s o : is_nav o -> frame s (step_state c s o).
+(* every operation keeps the kind of the History object *)
+Lemma write_back_th c s b : th (write_back c s b) = th s.
 Proof.
-  intros H. rewrite step_state_eq.
+  unfold write_back, cursor_changed, text_changed.
+  destruct (negb (str_eqb _ _)); destruct (negb (bcur b =? cur s)); destruct (val c); try destruct (vwt c); reflexivity.
+Qed.
+
+Lemma append_to_history_thr s : thr (th (append_to_history s)) = thr (th s).
+Proof.
+  unfold append_to_history, do_append. destruct (text s); [reflexivity|].
+  destruct (ls (hist_for_get s)); [|destruct (str_eqb _ _)]; try reflexivity;
+    destruct (thr (th s)) eqn:E; proj; auto.
+Qed.
+
+Lemma pop_step_th s : th (pop_step s) = th s.
+Proof.
+  unfold pop_step. destruct (thr (th s)); [reflexivity|].
+  destruct (task s); [|reflexivity]. destruct (tfin s); [reflexivity|].
+  destruct (nth_error _ _); reflexivity.
+Qed.
+
+Lemma pop_n_th n : forall s, th (pop_n n s) = th s.
+Proof. induction n; intros s; cbn [pop_n]; [reflexivity|]. rewrite IHn. apply pop_step_th. Qed.
+
+Lemma nav_core_th c s o : is_nav o -> th (snd (fst (step_core c s o))) = th s.
+Proof. intros H. destruct (nav_core_frame c s o H) as (_ & _ & _ & _ & _ & K). exact K. Qed.
+
+Lemma core_thr c s o : thr (th (snd (fst (step_core c s o)))) = thr (th s).
+Proof.
+  destruct o; try (rewrite nav_core_th by exact I; reflexivity);
+    cbn [step_core ok fst snd].
+  - destruct (insert_text _ _ _ _); cbn [of_res ok fst snd]; [rewrite write_back_th|]; reflexivity.
+  - destruct (delete_before_cursor _ _); cbn [of_res ok fst snd]; [rewrite write_back_th|]; reflexivity.
+  - destruct (delete _ _); cbn [of_res ok fst snd]; [rewrite write_back_th|]; reflexivity.
+  - cbn [of_res ok fst snd]. rewrite write_back_th; reflexivity.
+  - unfold validate_and_handle.
+    destruct (validate_frame c s true) as (_ & _ & _ & _ & _ & F).
+    destruct (validate c s true) as [s1 okv]; cbn [fst] in F.
+    destruct okv; cbn [fst snd]; [|rewrite F; reflexivity].
+    destruct (keep c); [|unfold reset; proj]; rewrite append_to_history_thr, F; reflexivity.
+  - unfold reset; proj. destruct app; [apply append_to_history_thr | reflexivity].
+  - unfold load_start. destruct (task s); [reflexivity|].
+    destruct (thr (th s)) eqn:E; [|proj; exact E]. destruct (tstarted (th s)); reflexivity.
+  - rewrite pop_step_th; reflexivity.
+  - unfold pop_all. rewrite pop_n_th; reflexivity.
+  - reflexivity.
+  - apply append_to_history_thr.
+  - reflexivity.
+  - unfold thread_step. destruct (thr (th s)) eqn:E; cbn [andb]; [|exact E].
+    destruct (tstarted (th s)); [|exact E]. destruct (tsrc (th s)); [exact E | reflexivity].
+Qed.
+
+Lemma step_thr c s o : thr (th (step_state c s o)) = thr (th s).
+Proof. rewrite step_state_full, flush_th, consume_th. apply core_thr. Qed.
+
+Lemma steps_thr c ops : forall s, thr (th (steps c s ops)) = thr (th s).
+Proof.
+  induction ops as [|o r IH]; intros s; cbn [steps fold_left]; [reflexivity|].
+  apply eq_trans with (thr (th (step_state c s o))); [apply IH | apply step_thr].
+Qed.
+
+(* for InMemoryHistory / FileHistory a step is the operation + the flush *)
+Lemma step_state_eq c s o :
+  thr (th s) = false -> step_state c s o = flush c (snd (fst (step_core c s o))).
+Proof.
+  intros H. rewrite step_state_full, consume_base; [reflexivity|]. rewrite core_thr. exact H.
+Qed.
+
+Lemma nav_step_frame c s o : thr (th s) = false -> is_nav o -> frame s (step_state c s o).
+Proof.
+  intros Ht H. rewrite step_state_eq by exact Ht.
   eapply frame_trans; [apply nav_core_frame; exact H | apply flush_frame].
 Qed.
 
-Lemma nav_steps_frame c ops : forall s, Forall is_nav ops -> frame s (steps c s ops).
+Lemma nav_steps_frame c ops : forall s,
+  thr (th s) = false -> Forall is_nav ops -> frame s (steps c s ops).
 Proof.
-  induction ops as [|o r IH]; intros s H; cbn [steps fold_left]; [apply frame_refl|].
+  induction ops as [|o r IH]; intros s Ht H; cbn [steps fold_left]; [apply frame_refl|].
   inversion H; subst.
-  eapply frame_trans; [apply nav_step_frame; eassumption | apply IH; assumption].
+  eapply frame_trans; [apply nav_step_frame; eassumption | apply IH; [rewrite step_thr|]; assumption].
 Qed.
 
 (* ---------------------------------------------------------------------- *)
@@ -373,13 +457,14 @@ Qed.
 Lemma frame_only_current s s1 s2 :
   only_current_changed s s1 -> frame s1 s2 -> wi s2 = wi s1 -> only_current_changed s s2.
 Proof.
-  unfold only_current_changed, frame. intros (A&B&C&D&E&F) (G&H&I&J&K) L.
+  unfold only_current_changed, frame. intros (A&B&C&D&E&F) (G&H&I&J&K&K') L.
   repeat split; try congruence. intros j Hj. rewrite G. apply F; exact Hj.
 Qed.
 
-Lemma edit_step_spec c s o : Inv s -> is_edit o -> only_current_changed s (step_state c s o).
+Lemma edit_step_spec c s o :
+  thr (th s) = false -> Inv s -> is_edit o -> only_current_changed s (step_state c s o).
 Proof.
-  intros HI H. rewrite step_state_eq.
+  intros Ht HI H. rewrite step_state_eq by exact Ht.
   eapply frame_only_current; [| apply flush_frame | apply flush_wi].
   destruct o; cbn [is_edit] in H; try contradiction; cbn [step_core]; apply of_res_spec; exact HI.
 Qed.
@@ -492,8 +577,8 @@ Proof. apply frame_inv; [apply flush_frame | apply flush_wi]. Qed.
 
 Lemma append_to_history_lines s : wl (append_to_history s) = wl s /\ wi (append_to_history s) = wi s.
 Proof.
-  unfold append_to_history. destruct (text s); [auto|].
-  destruct (ls (ensure_loaded (store s))); [auto|]. destruct (str_eqb _ _); auto.
+  unfold append_to_history, do_append. destruct (text s); [auto|].
+  destruct (ls (hist_for_get s)); [|destruct (str_eqb _ _)]; try (destruct (thr (th s))); auto.
 Qed.
 
 Lemma append_to_history_inv s : Inv s -> Inv (append_to_history s).
@@ -504,9 +589,30 @@ Proof. unfold Inv, reset; proj. unfold len; cbn. lia. Qed.
 
 Lemma pop_step_inv s : Inv s -> Inv (pop_step s).
 Proof.
-  intros HI. unfold pop_step. destruct (task s) as [i|]; [|exact HI].
+  intros HI. unfold pop_step. destruct (thr (th s)); [exact HI|].
+  destruct (task s) as [i|]; [|exact HI].
   destruct (tfin s); [exact HI|].
   destruct (nth_error _ _); unfold Inv in *; proj; [rewrite len_cons; lia | exact HI].
+Qed.
+
+Lemma consume_inv s : Inv s -> Inv (consume s).
+Proof.
+  intros HI. unfold consume. destruct (thr (th s)); [|exact HI].
+  destruct (task s); [|exact HI]. destruct (tfin s); [exact HI|].
+  unfold Inv in *; proj. rewrite len_app, len_rev.
+  pose proof (len_nonneg (skipn (Z.to_nat (nprep (th s) - tprep (th s) + z)) (ls (store s)))). lia.
+Qed.
+
+Lemma load_start_inv s : Inv s -> Inv (load_start s).
+Proof.
+  intros HI. unfold load_start. destruct (task s); [exact HI|].
+  destruct (thr (th s)); [destruct (tstarted (th s))|]; unfold Inv in *; proj; exact HI.
+Qed.
+
+Lemma thread_step_inv s : Inv s -> Inv (thread_step s).
+Proof.
+  intros HI. unfold thread_step. destruct (thr (th s) && tstarted (th s)); [|exact HI].
+  destruct (tsrc (th s)); unfold Inv in *; proj; exact HI.
 Qed.
 
 Lemma pop_n_inv n : forall s, Inv s -> Inv (pop_n n s).
@@ -544,7 +650,7 @@ Proof.
     destruct okv; cbn [fst snd]; [|exact H1].
     destruct (keep c); [apply append_to_history_inv, H1 | apply reset_inv].
   - apply reset_inv.
-  - unfold load_start. destruct (task s); unfold Inv in *; proj; exact HI.
+  - apply load_start_inv, HI.
   - apply pop_step_inv, HI.
   - apply pop_n_inv, HI.
   - unfold Inv in *; proj; exact HI.
@@ -553,10 +659,11 @@ Proof.
   - unfold jump. destruct ((0 <=? i) && (i <? len (wl s))) eqn:E; [|exact HI].
     apply andb_true_iff in E as [E1 E2]. apply set_cursor_inv, set_wi_inv. lia.
   - unfold Inv in *; proj; exact HI.
+  - apply thread_step_inv, HI.
 Qed.
 
 Lemma step_inv c s o : wf_op o -> Inv s -> Inv (step_state c s o).
-Proof. intros Hwf HI. rewrite step_state_eq. apply flush_inv, core_inv; assumption. Qed.
+Proof. intros Hwf HI. rewrite step_state_full. apply flush_inv, consume_inv, core_inv; assumption. Qed.
 
 Lemma steps_inv c ops : forall s, Forall wf_op ops -> Inv s -> Inv (steps c s ops).
 Proof.
